@@ -265,6 +265,12 @@ func ruleNoShare(c *Ctx) *RuleResult {
 // ruleWhoWrites: every module function that may write a field of the named struct type
 // (through any parameter) must be in the allowed set.
 func ruleWhoWrites(c *Ctx, rule string, pkgRel, typeName string, allowed []string, doc string) *RuleResult {
+	return ruleWhoWritesX(c, rule, pkgRel, typeName, allowed, doc, false)
+}
+
+// ruleWhoWritesX: with callResults, writes to a value of the type obtained from a module call in the
+// same function (e.g. g := NewSparse(...); g.Neighbourhoods[i] = ...) count as well.
+func ruleWhoWritesX(c *Ctx, rule string, pkgRel, typeName string, allowed []string, doc string, callResults bool) *RuleResult {
 	r := &RuleResult{Rule: rule, Doc: doc, MinInst: 1}
 	E := c.Eff()
 	tn := c.Pkg(pkgRel).Types.Scope().Lookup(typeName)
@@ -281,7 +287,38 @@ func ruleWhoWrites(c *Ctx, rule string, pkgRel, typeName string, allowed []strin
 		f := E.fas[fn]
 		var hits []string
 		for _, o := range f.objs {
-			if o.root < 0 || len(o.written) == 0 {
+			if len(o.written) == 0 {
+				continue
+			}
+			if o.root < 0 {
+				// a local object: only the merged result object of a module call, when requested
+				isCallRes := false
+				if callResults {
+					for v, so := range f.site {
+						if so != o {
+							continue
+						}
+						if call, ok := v.(*ssa.Call); ok {
+							if cal := call.Call.StaticCallee(); cal != nil && c.inModule(cal) {
+								t := call.Type()
+								if p, ok := t.Underlying().(*types.Pointer); ok {
+									t = p.Elem()
+								}
+								if types.Identical(t, T) {
+									isCallRes = true
+								}
+							}
+						}
+					}
+				}
+				if !isCallRes {
+					continue
+				}
+				hitsFresh := []string{}
+				for p := range o.written {
+					hitsFresh = append(hitsFresh, "result."+p)
+				}
+				hits = append(hits, hitsFresh...)
 				continue
 			}
 			// the struct itself, or memory reached through one of its fields
